@@ -84,6 +84,14 @@ def border_job(job):
             else:
                 tb.set_cell_border(o - 1, line, "left", vals[v], ln)
     nmerge = 0
+    strokes = [dict(x) for x in strokes]
+    for s in strokes:
+        # a merge ON the line needs cells on both sides of it (straddling) or two rows / columns behind it (outer edge), and no
+        # other merged range in the way: where that is not so, the step becomes a merge elsewhere in the table
+        if s["v"] == "touch-merge-over" and (merged or line < 1 or line >= size):
+            s["v"], s["o"], s["len"] = "touch-merge", 0, 0
+        if s["v"] == "touch-merge-outer" and (merged or line + 1 >= size):
+            s["v"], s["o"], s["len"] = "touch-merge", 0, 0
     for s in strokes:
         o, ln, v = s["o"], s["len"], s["v"]
         if o == 0 and v != "reopen" and not str(v).startswith("touch-"):
@@ -106,6 +114,15 @@ def border_job(job):
                 for (r, c) in ([(line, i), (line - 1, i)] if orient == "h" else [(i, line), (i, line - 1)]):
                     if 0 <= r < tb.num_rows and 0 <= c < tb.num_cols and not isinstance(tb.cell(r, c), MergedCell):
                         tb.write(r, c, "w%d" % nmerge)
+        elif v in ("touch-merge-over", "touch-merge-outer"):
+            # Borders.tla MergeOver / MergeOuter: positions o..o+len-1 of the line; rows (columns) line-1..line straddle it,
+            # rows (columns) line..line+1 have it as their outer edge
+            from ..wb import colname
+            a, b = (line - 1, line) if v == "touch-merge-over" else (line, line + 1)
+            if orient == "h":
+                tb.merge_cells("%s%d:%s%d" % (colname(o - 1), a + 1, colname(o + ln - 2), b + 1))
+            else:
+                tb.merge_cells("%s%d:%s%d" % (colname(a), o, colname(b), o + ln - 1))
         elif v == "touch-merge":
             # Borders.tla Touch: a rectangle elsewhere in the table is merged (merge_cells rebuilds every cell's border object)
             from ..wb import colname
@@ -463,6 +480,8 @@ def run(ctx):
     ctx.tlc("Borders", bcfg % (4, 3, "FirstRunWins", "VIEW NoHist\n"), what="Bug_FirstRunWins", expect_violation="FileAgrees", count=False)
     ctx.tlc("Borders", bcfg % (4, 3, "OrderBeforeBump", "VIEW NoHist\n"), what="Bug_OrderBeforeBump", expect_violation="OpenAgrees", count=False)
     ctx.tlc("Borders", bcfg % (4, 3, "TouchForgetsBorders", "VIEW NoHist\n"), what="Bug_TouchForgetsBorders", expect_violation="OpenAgrees", count=False)
+    ctx.tlc("Borders", bcfg % (4, 3, "AnchorShowsInner", "VIEW NoHist\n"), what="Bug_AnchorShowsInner", expect_violation="OpenAgrees", count=False)
+    ctx.tlc("Borders", bcfg % (4, 3, "MergeForgetsOuter", "VIEW NoHist\n"), what="Bug_MergeForgetsOuter", expect_violation="OpenAgrees", count=False)
     ctx.tlc("Styles", scfg % (6 if q else 7, "none", "VIEW NoHist\n"), what="MC_Styles", timeout=3000)
     ctx.tlc("Styles", scfg % (6, "ReadMarksDirty", "VIEW NoHist\n"), what="Bug_ReadMarksDirty", expect_violation="SavedIsShown", count=False)
     ctx.tlc("Styles", scfg % (6, "PresetKeepsCellStyle", "VIEW NoHist\n"), what="Bug_PresetKeepsCellStyle", expect_violation="SavedIsShown", count=False)
